@@ -218,7 +218,7 @@ Definition names_complete (l : list names) : bool :=
 Definition same_set (a b : list string) : bool :=
   forallb (fun x => mem x b) a && forallb (fun x => mem x a) b && Nat.eqb (List.length a) (List.length b).
 Definition sfrow_doc_ok (r : sfrow) : bool := same_set (sf_fields r) (doc_sys_fields (sf_plat r) (sf_fn r)).
-Definition sfrow_ok (r : sfrow) : bool := known_sys_fields (sf_plat r) (sf_fn r) || sfrow_doc_ok r.
+Definition sfrow_ok (r : sfrow) : bool := sfrow_doc_ok r.
 Definition sfrows_complete (rs : list sfrow) : bool :=
   forallb (fun p => forallb (fun f => existsb (fun r => plat_eqb (sf_plat r) p && String.eqb (sf_fn r) f) rs) sys_functions) all_plats.
 
